@@ -11,7 +11,8 @@
 //!   does not say how much of the partial data stays; it may never be anything the reader did
 //!   not deliver).
 //! * `read_to_string` — as above; if the delivered bytes are not UTF-8: `Err` and the String is
-//!   byte-identical to before. The String is valid UTF-8 at every exit.
+//!   byte-identical to before (when the stream was cut short by a reader error, old ++ a valid
+//!   prefix of the delivered bytes is accepted as well). The String is valid UTF-8 at every exit.
 //! * `read_exact` — `Ok` iff n bytes were delivered with no EOF / error answer before; buffer
 //!   equals the delivered bytes; exactly n bytes consumed. EOF before n ⇒ `Err`.
 //! * `write_all` / `write_fmt` — `Ok` ⇒ sink == bytes exactly; `Err(e)` ⇒ the writer answered a
@@ -218,7 +219,15 @@ pub fn check_read_to_string(c: &ReadCase) -> CaseResult {
         Err(e) => {
             let k = EK::of(&e);
             if !d_valid {
-                ensure!(got == old, format!("{op}|string-changed-on-invalid-utf8|{}", diff_shape(got, old, &[])), "delivered bytes {} are not UTF-8; the String must be unchanged ({}), it is {}", show(d), show(old), show(got));
+                // End of file reached: the data is definitely not UTF-8 and the String must be
+                // untouched. If the stream was cut short by a reader error, "the data is not
+                // UTF-8" and "partial data of a failed read stays" both apply: besides
+                // "unchanged", old ++ (a valid-UTF-8 prefix of the delivered bytes) is accepted
+                // (validity of the whole String was checked above).
+                let unchanged = got == old;
+                let kept_prefix = !f.fatals.is_empty() && got.len() >= old.len() && got[..old.len()] == *old && d.starts_with(&got[old.len()..]);
+                let shape = if got.len() >= old.len() && got[..old.len()] == *old { "bytes appended" } else { "existing content changed" };
+                ensure!(unchanged || kept_prefix, format!("{op}|string-changed-on-invalid-utf8|{shape}"), "delivered bytes {} are not UTF-8; the String must be unchanged ({}), it is {}", show(d), show(old), show(got));
                 rep.class("invalid-utf8-rejected");
                 rep.class_if(!f.fatals.is_empty(), "invalid-utf8-and-error");
             } else {
@@ -404,6 +413,13 @@ fn grid<C: Serialize + DeserializeOwned>(ctx: &Ctx, name: &str, what: &str, case
 }
 
 pub fn run(ctx: &Ctx) {
+    // Safety net for the machine, not an oracle: a helper whose buffer growth runs away (each
+    // read doubling the Vec) must fail fast (allocation failure -> abort -> crash policy of the
+    // orchestrator) instead of zero-filling tens of GiB. Nothing here needs more than this.
+    unsafe {
+        let lim = libc::rlimit { rlim_cur: 3 << 30, rlim_max: 3 << 30 };
+        libc::setrlimit(libc::RLIMIT_AS, &lim);
+    }
     grid(ctx, "rte-grid", "stream size {0,1,2,31,32,33,63,64,65,96,97} x initial length {0,5,40} x chunking {whole,1,7,32} x {undisturbed, EINTR/EIO at start/middle/end, EOF in the middle} x capacity {len, +1, +31, +32, +33, fit-1, fit, fit+1}", gen::rte_grid, check_read_to_end);
     grid(ctx, "rts-grid", "\"a\\u{e9}\\u{20ac}\\u{1F600}z\" cut at every byte offset x {EINTR at the cut or not} x {complete, truncated, 0xFF inserted, EIO at the cut} x initial {\"\", \"\\u{fc}x\"} x capacity {len, +1, fit, +32}", gen::rts_grid, check_read_to_string);
     grid(ctx, "rex-grid", "n {0,1,2,31,32,33,64} x stream {n-1,n,n+1} x chunking {whole,1,7} x {undisturbed, EINTR/EIO at start/middle/end, EOF in the middle}", gen::rex_grid, check_read_exact);
